@@ -45,6 +45,12 @@
 
 static struct scen S;
 
+/* command table base for the guided-run hints (set by the world builder); lets a hint also pin
+ * at->cmd to a concrete table entry */
+static const struct cat_command *vf_cmd_base;
+static int vf_cmd_n;
+#define VF_CMDIDX(p) ((p) == NULL ? -1 : ((vf_cmd_base != NULL && (p) >= vf_cmd_base && (p) < vf_cmd_base + vf_cmd_n) ? (int)((p) - vf_cmd_base) : -2))
+
 /* CBMC zero-initialises statics itself; a memset over a struct that holds pointers would turn
  * every later field access into byte extraction and defeat constant propagation */
 #ifdef __CPROVER__
@@ -131,23 +137,68 @@ static void vf_check_failed(const char *msg)
 #define CHECK(c, msg) do { if (!(c)) vf_check_failed(msg); } while (0)
 #define WITNESS(c, name) do { if (c) vf_witness(name); } while (0)
 
-/* hint recording: (lane, step) -> set of (state, unsolicited state) */
+/* hint recording: (lane, step) -> set of control keys (state, event state, cmd index, var index, index).
+ * -3 = "not recorded for this state" (field left symbolic), -2 = some other value, -1 = NULL */
 #define VF_MAXLANE 2
 #define VF_MAXSTEP 400
-#define VF_NS 27 /* cat_state -1..25 -> 0..26 */
-#define VF_NU 11
-static unsigned char vf_hint[VF_MAXLANE][VF_MAXSTEP][VF_NS][VF_NU];
+#define VF_MAXKEYS 200000
+static struct vf_key { short lane, k, s, u, c, v, i; } vf_keys[VF_MAXKEYS];
+static int vf_nkeys;
+static unsigned vf_keyhash[1 << 20];
 static int vf_hint_on = 1;
+
+static int vf_state_uses_var(int s) { return s == CAT_STATE_PARSE_WRITE_ARGS || s == CAT_STATE_FORMAT_READ_ARGS || s == CAT_STATE_FORMAT_TEST_ARGS; }
+static int vf_state_uses_index(int s)
+{
+        return vf_state_uses_var(s) || s == CAT_STATE_UPDATE_COMMAND_STATE || s == CAT_STATE_SEARCH_COMMAND || s == CAT_STATE_PRINT_CMD;
+}
+
+static void vf_key_of(struct cat_object *at, struct vf_key *key)
+{
+        key->s = (short)at->state;
+        key->u = (short)at->unsolicited_fsm.state;
+        key->c = (short)VF_CMDIDX(at->cmd);
+        key->v = -3;
+        key->i = -3;
+        if (vf_state_uses_var(key->s) && key->c >= 0) {
+                const struct cat_variable *base = at->cmd->var;
+                if (at->var == NULL) key->v = -1;
+                else if (base != NULL && at->var >= base && at->var < base + at->cmd->var_num) key->v = (short)(at->var - base);
+                else key->v = -2;
+        }
+        if (vf_state_uses_index(key->s))
+                key->i = (at->index < 64) ? (short)at->index : -2;
+}
+
+static void vf_record(int lane, int k, struct cat_object *at)
+{
+        struct vf_key key;
+        unsigned h, j;
+        vf_key_of(at, &key);
+        key.lane = (short)lane;
+        key.k = (short)k;
+        h = (unsigned)(lane * 7919 + k * 104729 + key.s * 1299709 + key.u * 15485863 + key.c * 32452843 + key.v * 49979687 + key.i * 67867967);
+        for (j = 0; j < 64; j++) {
+                unsigned slot = (h + j * 2654435761u) & ((1u << 20) - 1);
+                unsigned e = vf_keyhash[slot];
+                if (e == 0) {
+                        if (vf_nkeys < VF_MAXKEYS) { vf_keys[vf_nkeys] = key; vf_keyhash[slot] = (unsigned)(++vf_nkeys); }
+                        return;
+                }
+                if (memcmp(&vf_keys[e - 1], &key, sizeof(key)) == 0)
+                        return;
+        }
+}
 
 static cat_status hinted_service(int lane, int k, struct cat_object *at)
 {
-        int s = (int)at->state + 1;
-        int u = (int)at->unsolicited_fsm.state;
-        if (vf_hint_on && lane >= 0 && lane < VF_MAXLANE && k >= 0 && k < VF_MAXSTEP &&
-            s >= 0 && s < VF_NS && u >= 0 && u < VF_NU)
-                vf_hint[lane][k][s][u] = 1;
-        if (vf_verbose)
-                printf("STEP lane=%d k=%d state=%d ustate=%d\n", lane, k, (int)at->state, u);
+        if (vf_hint_on && lane >= 0 && lane < VF_MAXLANE && k >= 0 && k < VF_MAXSTEP)
+                vf_record(lane, k, at);
+        if (vf_verbose) {
+                struct vf_key key;
+                vf_key_of(at, &key);
+                printf("STEP lane=%d k=%d state=%d ustate=%d cmd=%d var=%d index=%d\n", lane, k, key.s, key.u, key.c, key.v, key.i);
+        }
         return cat_service(at);
 }
 
@@ -220,9 +271,40 @@ int main(int argc, char **argv)
                 printf("RESULT ok\n");
                 return 0;
         }
+        if (argc >= 5 && strcmp(argv[1], "--mutate") == 0) {
+                /* neighbourhood of a given instance: flip 1..3 random bytes, record the control keys visited */
+                static struct scen base;
+                static long n, i;
+                int k;
+                if (vf_load_hex(argv[2]) != 0) { printf("RESULT badfile\n"); return 4; }
+                base = S;
+                n = atol(argv[3]);
+                vf_rng_state ^= (uint64_t)atoll(argv[4]) * 0x9E3779B97F4A7C15ULL;
+                if (vf_rng_state == 0) vf_rng_state = 1;
+                signal(SIGSEGV, vf_sig); signal(SIGABRT, vf_sig); signal(SIGBUS, vf_sig); signal(SIGFPE, vf_sig);
+                for (i = 0; i < n; i++) {
+                        unsigned m, nm = 1 + rnd(3);
+                        S = base;
+                        if (i > 0)
+                                for (m = 0; m < nm; m++) {
+                                        unsigned pos = rnd((unsigned)sizeof(S));
+                                        ((unsigned char *)&S)[pos] = rnd(2) ? (unsigned char)rnd(256) : RND_PICK("AT?=,\r\n\"\\0159+ab");
+                                }
+                        vf_nfail = 0;
+                        if (sigsetjmp(vf_jmp, 1) == 0) {
+                                world_reset();
+                                scen_run();
+                        } else {
+                                signal(SIGSEGV, vf_sig); signal(SIGABRT, vf_sig); signal(SIGBUS, vf_sig); signal(SIGFPE, vf_sig);
+                        }
+                }
+                for (k = 0; k < vf_nkeys; k++)
+                        printf("H %d %d %d %d %d %d %d\n", vf_keys[k].lane, vf_keys[k].k, vf_keys[k].s, vf_keys[k].u, vf_keys[k].c, vf_keys[k].v, vf_keys[k].i);
+                return 0;
+        }
         if (argc >= 4 && strcmp(argv[1], "--sample") == 0) {
                 static long n, i, valid, invalid, crashed, failed, dumped;
-                int lane, k, s, u;
+                int k;
                 n = atol(argv[2]);
                 vf_rng_state ^= (uint64_t)atoll(argv[3]) * 0x9E3779B97F4A7C15ULL;
                 if (vf_rng_state == 0) vf_rng_state = 1;
@@ -251,12 +333,8 @@ int main(int argc, char **argv)
                                 signal(SIGSEGV, vf_sig); signal(SIGABRT, vf_sig); signal(SIGBUS, vf_sig); signal(SIGFPE, vf_sig);
                         }
                 }
-                for (lane = 0; lane < VF_MAXLANE; lane++)
-                        for (k = 0; k < VF_MAXSTEP; k++)
-                                for (s = 0; s < VF_NS; s++)
-                                        for (u = 0; u < VF_NU; u++)
-                                                if (vf_hint[lane][k][s][u])
-                                                        printf("H %d %d %d %d\n", lane, k, s - 1, u);
+                for (k = 0; k < vf_nkeys; k++)
+                        printf("H %d %d %d %d %d %d %d\n", vf_keys[k].lane, vf_keys[k].k, vf_keys[k].s, vf_keys[k].u, vf_keys[k].c, vf_keys[k].v, vf_keys[k].i);
                 for (k = 0; k < vf_wn; k++)
                         printf("W %s %ld\n", vf_wname[k], vf_wcount[k]);
                 printf("SAMPLES total=%ld valid=%ld invalid=%ld crashed=%ld checkfail=%ld\n", n, valid, invalid, crashed, failed);
